@@ -20,7 +20,8 @@ def sigv(c, rec, vname):
 
 def plan(ctx):
     thorough = ctx.tier == "thorough"
-    return [("rune", 6000 if thorough else 500, 4), ("fold", 3000 if thorough else 250, 4), ("bytes", 3000 if thorough else 250, 3)]
+    return [("rune", 6000 if thorough else 500, 4), ("fold", 3000 if thorough else 250, 4), ("bytes", 3000 if thorough else 250, 3),
+            ("foldbytes", 2000 if thorough else 200, 4)]
 
 
 def run(ctx, pid="C09"):
@@ -42,7 +43,7 @@ def run(ctx, pid="C09"):
     if os.path.exists(corpus):
         ctx.vhrun(["lex-run", corpus, ctx.path("corpus.rec")])
         vlib.validate_cases(ctx, "LexTrace", cfg, ctx.path("corpus.rec"), label="corpus", **kw)
-    for mode, n, L in (plan(ctx) if pid == "C09" else [("bytes", 8000 if ctx.tier == "thorough" else 900, 3)]):
+    for mode, n, L in (plan(ctx) if pid == "C09" else [("bytes", 10000 if ctx.tier == "thorough" else 1100, 3)]):
         f = ctx.path("rnd-%s.ndjson" % mode)
         ctx.vhrun(["lex-random", str(n), f, mode, str(L)])
         vlib.validate_cases(ctx, "LexTrace", cfg, f, label=mode, timeout=3300, **kw)
